@@ -32,6 +32,22 @@ LIST_AX = [
     ForAll([l, x], at(app(l, x), ln(l)) == x, patterns=[app(l, x)]),
     ForAll([l, x], Implies(And(nodup(l), Not(mem(l, x))), rem(app(l, x), x) == l), patterns=[rem(app(l, x), x)]),
 ]
+# "the list objects of different tasks are different objects", stated so that the solver needs one instance per task instead of one per pair of tasks:
+# inj(a): the task -> list-object map a is injective on the non-null tasks; disj(a, b): no list object of a non-null task in a is one in b.
+# Both are DEFINED predicates (axioms = the two directions of the definition, the <= direction skolemised); owner_ / side_ are the witnesses of the => direction
+# (owner_(a, .) a left inverse of a, side_(a, b, .) a function that tells the two ranges apart) - they exist exactly when the predicate holds.
+OBJMAP = ArraySort(T.z, LR.z)
+inj = Function('inj', OBJMAP, BoolSort()); disj = Function('disj', OBJMAP, OBJMAP, BoolSort())
+owner_ = Function('owner_of_list', OBJMAP, LR.z, T.z); side_ = Function('side_of_list', OBJMAP, OBJMAP, LR.z, IntSort())
+isk1 = Function('inj_sk1', OBJMAP, T.z); isk2 = Function('inj_sk2', OBJMAP, T.z); dsk1 = Function('disj_sk1', OBJMAP, OBJMAP, T.z); dsk2 = Function('disj_sk2', OBJMAP, OBJMAP, T.z)
+om, om2 = Consts('om om2', OBJMAP)
+INJ_AX = [
+    ForAll([om, x], Implies(And(inj(om), x != null), owner_(om, om[x]) == x), patterns=[MultiPattern(inj(om), om[x])]),
+    ForAll([om], Implies(Implies(And(isk1(om) != null, isk2(om) != null, isk1(om) != isk2(om)), om[isk1(om)] != om[isk2(om)]), inj(om)), patterns=[inj(om)]),
+    ForAll([om, om2, x], Implies(And(disj(om, om2), x != null), And(side_(om, om2, om[x]) == 0, side_(om, om2, om2[x]) == 1)), patterns=[MultiPattern(disj(om, om2), om[x]), MultiPattern(disj(om, om2), om2[x])]),
+    ForAll([om, om2], Implies(Implies(And(dsk1(om, om2) != null, dsk2(om, om2) != null), om[dsk1(om, om2)] != om2[dsk2(om, om2)]), disj(om, om2)), patterns=[disj(om, om2)]),
+]
+LIST_AX_CORE = LIST_AX; LIST_AX = LIST_AX_CORE + INJ_AX
 # list.insert(i, x) for 0 <= i <= len (the only way the repository calls it after its own index() look-ups)
 ins = Function('ins', LT.z, IntSort(), T.z, LT.z)
 LIST_INS_AX = [
@@ -98,6 +114,14 @@ GRAPH_AX = [
            patterns=[Desc(Store(pm, s_, null), a, x)]),
     ForAll([pm, s_], Implies(Acyc(pm), Acyc(Store(pm, s_, null))), patterns=[Acyc(Store(pm, s_, null))]),
 ]
+# sets (given as lists) closed under children: closedL(par, L) <=> every non-null child of a member of L is a member of L (lemma CL1 of lemmas/Graph.lean)
+closedL = Function('closedL', PAR, LT.z, BoolSort()); skc = Function('skc', PAR, LT.z, T.z)
+L_ = Const('L_', LT.z)
+CLOSED_AX = [
+    ForAll([pm, L_, x], Implies(And(closedL(pm, L_), pm[x] != null, mem(L_, pm[x])), mem(L_, x)), patterns=[MultiPattern(closedL(pm, L_), mem(L_, pm[x]))]),          # definition, =>
+    ForAll([pm, L_], Implies(Implies(And(pm[skc(pm, L_)] != null, mem(L_, pm[skc(pm, L_)])), mem(L_, skc(pm, L_))), closedL(pm, L_)), patterns=[closedL(pm, L_)]),        # definition, <= (skolemised)
+    ForAll([pm, L_, a, x], Implies(And(closedL(pm, L_), mem(L_, a), Desc(pm, a, x)), mem(L_, x)), patterns=[MultiPattern(closedL(pm, L_), Desc(pm, a, x))]),             # CL1
+]
 # root of a task's tree (lemmas R1none/R1some/R2/root_sub/root_unique/R3a/R3b/R3det of lemmas/Graph.lean); meaningful for acyclic maps
 rootof = Function('rootof', PAR, T.z, T.z)
 r_ = Const('r_', T.z)
@@ -112,6 +136,18 @@ ROOT_AX = [
     ForAll([pm, s_, x], Implies(And(Acyc(pm), s_ != null, x != null, pm[null] == null), rootof(Store(pm, s_, null), x) == If(insub(pm, s_, x), s_, rootof(pm, x))),
            patterns=[rootof(Store(pm, s_, null), x)]),                                                                                                                                   # R3det
 ]
+# "ids are unique within every tree" as a defined predicate (same device as inj above): uniq(par, ids) <=> no two different non-null tasks with the same tree root have the same id.
+# who_(par, ids, root, id) is the witness of the => direction (the task of that tree with that id); usk1 / usk2 the skolems of the <= direction.
+IDM = ArraySort(T.z, IntSort())
+uniq = Function('uniq', PAR, IDM, BoolSort()); who_ = Function('task_with_id', PAR, IDM, T.z, IntSort(), T.z)
+usk1 = Function('uniq_sk1', PAR, IDM, T.z); usk2 = Function('uniq_sk2', PAR, IDM, T.z)
+idm = Const('idm', IDM)
+UNIQ_AX = [
+    ForAll([pm, idm, x], Implies(And(uniq(pm, idm), x != null), who_(pm, idm, rootof(pm, x), idm[x]) == x), patterns=[MultiPattern(uniq(pm, idm), rootof(pm, x))]),
+    ForAll([pm, idm], Implies(Implies(And(usk1(pm, idm) != null, usk2(pm, idm) != null, usk1(pm, idm) != usk2(pm, idm), rootof(pm, usk1(pm, idm)) == rootof(pm, usk2(pm, idm))),
+                                      idm[usk1(pm, idm)] != idm[usk2(pm, idm)]), uniq(pm, idm)), patterns=[uniq(pm, idm)]),
+]
+ROOT_AX_CORE = ROOT_AX; ROOT_AX = ROOT_AX_CORE + UNIQ_AX
 # dependency relation as ghost E : Task -> (Task -> Bool)  (E[x][a]: a is a predecessor of x)
 SET = ArraySort(T.z, BoolSort()); REL = ArraySort(T.z, SET)
 TCp = Function('TCp', REL, T.z, T.z, BoolSort()); AcycP = Function('AcycP', REL, BoolSort()); wit = Function('wit', REL, T.z, SET, T.z)
@@ -127,6 +163,13 @@ DEP_AX = [   # G1 (Lean: PjGraph.G1) in skolemised form; TCp(E, a, x): a is a tr
     ForAll([E_, a, x], Implies(And(AcycP(E_), x != null, E_[x][a]), Not(TCp(E_, x, a))), patterns=[TCp(E_, x, a)]),                                # corollary of the three above (a direct link excludes the reverse path)
     ForAll([E_, a, x], Implies(TCp(E_, a, x), And(x != null, E_[x][lastp(E_, a, x)], Or(a == lastp(E_, a, x), TCp(E_, a, lastp(E_, a, x))))), patterns=[lastp(E_, a, x)]),   # G4: last step of a path (TransGen.tail), skolemised; fires only where a proof names the witness (hint_), else it would unfold paths for ever
     ForAll([x], hint_(x), patterns=[hint_(x)]),
+]
+# the successor relation is the transpose of the predecessor relation; a relation is acyclic iff its transpose is (Lean: PjGraph.transpose_acyclic).
+# Skolemised: tsk / ask name a pair on which the two relations are NOT transposes of each other, if there is one.
+tsk = Function('transp_sk1', REL, REL, T.z); ask = Function('transp_sk2', REL, REL, T.z); E2_ = Const('E2_', REL)
+TRANSP_AX = [
+    ForAll([E_, E2_], Implies(And(tsk(E_, E2_) != null, E2_[tsk(E_, E2_)][ask(E_, E2_)]) == And(ask(E_, E2_) != null, E_[ask(E_, E2_)][tsk(E_, E2_)]), AcycP(E_) == AcycP(E2_)),
+           patterns=[MultiPattern(AcycP(E_), AcycP(E2_))]),
 ]
 
 # termination measures: functions of the heap they are measured in.  Their existence for every acyclic finite graph is lemma K1 / wfE of
